@@ -294,6 +294,7 @@ type c15Batch struct {
 type c15Cfg struct {
 	mode   string // "random" | "gateB" | "gateC"
 	cos    bool   // CloseOnShutdown
+	rmu    bool   // ReduceMemoryUsage
 	nconns int
 	sdAt   int // microseconds before Shutdown is called
 	lnSeed int // bit cyc: the Server serves two listeners in that cycle
@@ -372,7 +373,7 @@ func c15RunOne(t *testing.T, rng *rand.Rand, tw *vfTraceWriter, trNo int, cfg c1
 		}
 		running.Add(-1)
 	}
-	s := &Server{Handler: handler, CloseOnShutdown: cfg.cos, Logger: c15NopLogger{}, NoDefaultServerHeader: true}
+	s := &Server{Handler: handler, CloseOnShutdown: cfg.cos, ReduceMemoryUsage: cfg.rmu, Logger: c15NopLogger{}, NoDefaultServerHeader: true}
 	// ConnState(StateNew) is called by the accept loop between Accept and the s.open.Add(1) of the
 	// connection: the gate "A" parks the accept loop exactly there
 	s.ConnState = func(c net.Conn, st ConnState) {
@@ -389,7 +390,7 @@ func c15RunOne(t *testing.T, rng *rand.Rand, tw *vfTraceWriter, trNo int, cfg c1
 	}
 	rec.srv = s
 	nl1 := c15NumListeners(cfg, 1)
-	tw.Emit(vfRec{"ev": "init", "nc": 4, "nlmax": 2, "nl": nl1, "maxreq": 8, "cos": map[bool]int{false: 0, true: 1}[cfg.cos], "tr": trNo, "mode": cfg.mode})
+	tw.Emit(vfRec{"ev": "init", "nc": 4, "nlmax": 2, "nl": nl1, "maxreq": 8, "cos": map[bool]int{false: 0, true: 1}[cfg.cos], "tr": trNo, "mode": cfg.mode, "rmu": cfg.rmu})
 	VerifHook = rec.hook
 	defer func() { VerifHook = nil }()
 	if cfg.cycles < 1 {
@@ -728,7 +729,7 @@ func c15Cycle(rng *rand.Rand, rec *c15Rec, s *Server, cfg c15Cfg, mode string, c
 	late := rec.lateStart
 	rec.mu.Unlock()
 	nreq := nreqOf(clients)
-	tag := fmt.Sprintf("mode=%s cos=%v reuse=%v", mode, cfg.cos, cyc > 1)
+	tag := fmt.Sprintf("mode=%s cos=%v reuse=%v rmu=%v", mode, cfg.cos, cyc > 1, cfg.rmu)
 	if err != nil {
 		return nreq, "", "", true // only a nil return is constrained by the property
 	}
@@ -850,6 +851,7 @@ func TestVerifC15Shutdown(t *testing.T) {
 			cfgs = append(cfgs, c15Cfg{mode: "random", cos: cos, nconns: 1 + rng.Intn(4), sdAt: rng.Intn(4000), cycles: 1 + rng.Intn(3), lnSeed: rng.Intn(16)})
 		}
 		for i, cfg := range cfgs {
+			cfg.rmu = rng.Intn(3) == 0
 			n, nr, key, detail := c15RunOne(t, rng, tw, i+1, cfg)
 			total += n
 			nreq += nr
